@@ -569,6 +569,43 @@ func runBubble(p Plan) (v hk.Verdict) {
 				v.Label("mutator-error")
 			case cls == model.NotFound, cls == model.OwnerConflict, cls == model.PhaseConflict:
 				v.Label("err:" + cls.String())
+
+				// the reported reason must have been true at some moment of the call (as if executed one at a time)
+				if first >= 0 {
+					explained := false
+					cur := replay(initial, commits, first)
+
+					for i := first; ; i++ {
+						r := cur[as.key]
+
+						switch cls {
+						case model.NotFound:
+							explained = explained || r == nil
+						case model.OwnerConflict:
+							explained = explained || (r != nil && r.Owner != as.owner)
+						case model.PhaseConflict:
+							// finalizer changes accept any phase; the other helpers report a phase conflict when their
+							// expected phase (default: running) does not hold
+							switch {
+							case as.a.K == "addfin" || as.a.K == "remfin":
+							case as.exp != nil:
+								explained = explained || (r != nil && r.Phase != *as.exp)
+							default:
+								explained = explained || (r != nil && r.Phase != 0)
+							}
+						}
+
+						if i >= last || i >= len(commits) {
+							break
+						}
+
+						applyCommit(cur, commits[i])
+					}
+
+					if !explained {
+						v.Failf("%s (%s via %s) returned %v, but at no moment of the call was that the case for %s (owner option %q): no one-at-a-time order explains the error", as.name, as.a.K, as.a.Via, as.err, as.key, as.owner)
+					}
+				}
 			case cls == model.VersionConflict && as.a.K == "modify":
 				// plain conflict: only the create path of Modify may report it (already exists)
 				createTried := false
